@@ -67,6 +67,11 @@ func heredocH(line string) string {
 			continue
 		}
 		x := ""
+		if r.Heredoc == nil || r.Delim == nil {
+			// the redirection of an accepted command did not receive a here-document at all
+			out = append(out, hx(r.Op)+"|||nil")
+			continue
+		}
 		for _, p := range r.Heredoc {
 			if _, ok := p.(*ast.Lit); !ok {
 				x = "x"
@@ -97,6 +102,9 @@ func hdocH(line string) string {
 	collectRedirs(reflect.ValueOf(cmds), &rsd, 0)
 	if len(rsd) != 1 {
 		return "shape"
+	}
+	if rsd[0].Heredoc == nil || rsd[0].Delim == nil {
+		return "nil-heredoc"
 	}
 	return "ok " + hx(printWord(rsd[0].Heredoc)) + " " + hx(printWord(rsd[0].Delim)) + " " + strconv.Itoa(len(src)-rs.off)
 }
